@@ -3,7 +3,7 @@
 From Coq Require Import Ascii String.
 From Coq Require Import List Arith Bool NArith.
 Import ListNotations.
-Require Import Laze.model.Base Laze.model.Env Laze.model.Allow Laze.model.Ninja.
+Require Import Laze.model.Base Laze.model.Env Laze.model.Allow Laze.model.Path Laze.model.Ninja.
 Open Scope list_scope.
 
 Inductive dep := Hard (n : str) | Soft (n : str) | IfThenHard (o n : str) | IfThenSoft (o n : str).
@@ -22,6 +22,22 @@ Record rule := {
 
 Record custom_build := { cb_gcc_deps : option str; cb_cmd : list str; cb_out : option (list str) }.
 
+(* download.rs: only `git: {url, commit}` is supported by the generator *)
+Inductive dl_source := DlGitCommit (url commit : str) | DlUnsupported.
+Record download := { dl_source_of : dl_source; dl_patches : option (list str); dl_dldir : option str }.
+
+(* Download::srcdir / tagfile, download.rs:45-72 *)
+Definition dl_srcdir (build_dir : str) (d : download) (relpath name : str) : str :=
+  let base := path_push build_dir (S_ "dl") in
+  match dl_dldir d with
+  | Some dir => path_push base dir
+  | None => path_push (path_push base relpath) name
+  end.
+Definition dl_tagfile_download (srcdir : str) : str := path_push srcdir (S_ ".laze-downloaded").
+Definition dl_tagfile_patched (srcdir : str) : str := path_push srcdir (S_ ".laze-patched").
+Definition dl_tagfile (d : download) (srcdir : str) : str :=
+  match dl_patches d with Some _ => dl_tagfile_patched srcdir | None => dl_tagfile_download srcdir end.
+
 Record module := {
   m_name : str; m_context_name : str;
   m_selects : list dep; m_imports : list dep;
@@ -35,7 +51,8 @@ Record module := {
   m_relpath : option str; m_srcdir : option str;
   m_build_dep_files : option (list str);
   m_is_build_dep : bool; m_is_global_build_dep : bool; m_is_binary : bool;
-  m_context_id : option nat; m_defined_in : option str }.
+  m_context_id : option nat; m_defined_in : option str;
+  m_download : option download }.
 
 (* Module::new *)
 Definition module_new (name : str) (context_name : option str) : module :=
@@ -46,7 +63,7 @@ Definition module_new (name : str) (context_name : option str) : module :=
      m_env_local := []; m_env_export := []; m_env_global := []; m_env_early := [];
      m_relpath := None; m_srcdir := None; m_build_dep_files := None;
      m_is_build_dep := false; m_is_global_build_dep := false; m_is_binary := false;
-     m_context_id := None; m_defined_in := None |}.
+     m_context_id := None; m_defined_in := None; m_download := None |}.
 
 Record context := {
   c_name : str; c_parent_name : option str; c_parent_index : option nat;
@@ -215,7 +232,8 @@ Definition with_context_id (m : module) (i : nat) : module :=
      m_env_global := m_env_global m; m_env_early := m_env_early m; m_relpath := m_relpath m;
      m_srcdir := m_srcdir m; m_build_dep_files := m_build_dep_files m;
      m_is_build_dep := m_is_build_dep m; m_is_global_build_dep := m_is_global_build_dep m;
-     m_is_binary := m_is_binary m; m_context_id := Some i; m_defined_in := m_defined_in m |}.
+     m_is_binary := m_is_binary m; m_context_id := Some i; m_defined_in := m_defined_in m;
+     m_download := m_download m |}.
 
 (* ContextBag::add_module *)
 Definition add_module (b : bag) (m : module) : res bag :=
